@@ -68,18 +68,18 @@ Lemma convert_items_app P a b :
   end.
 Proof.
   unfold convert_items. destruct (p_convert P); [|reflexivity].
-  destruct (p_coding P); apply table_take_app.
+  apply table_take_app.
 Qed.
 
 Lemma convert_items_length P a x : convert_items P a = Some x -> len x = len a.
 Proof.
   unfold convert_items, len. destruct (p_convert P).
-  - destruct (p_coding P); intros H; apply table_take_length in H; lia.
+  - intros H; apply table_take_length in H; lia.
   - intros H; inversion H; reflexivity.
 Qed.
 
 Lemma convert_items_nil P : convert_items P [] = Some [].
-Proof. unfold convert_items. destruct (p_convert P); [destruct (p_coding P)|]; reflexivity. Qed.
+Proof. unfold convert_items. destruct (p_convert P); reflexivity. Qed.
 
 (* ---- the invariant *)
 
